@@ -7,7 +7,7 @@ s = open(path).read()
 for kv in sys.argv[2:]:
     k, v = kv.split("=", 1)
     val = ast.literal_eval(v)
-    pat = re.compile(r"^" + k + r" = .*?(?=^\S)", re.S | re.M)
+    pat = re.compile(r"^" + k + r" = .*?(?=^[A-Za-z_#@])", re.S | re.M)
     rep = f"{k} = {val!r}\n"
     if pat.search(s):
         s = pat.sub(lambda m: rep, s, count=1)
